@@ -186,7 +186,9 @@ func runOne(s *scenario, idx int, derived uint64) (line string, viol []string, d
 				if r.Intn(3) == 0 {
 					k = int64(r.Intn(200000))
 				}
+				px.mu.Lock()
 				px.cuts = append(px.cuts, cutSpec{on: true, dir: r.Intn(2), k: k, mode: r.Intn(numKillModes)})
+				px.mu.Unlock()
 			}
 		}
 	}
@@ -377,7 +379,7 @@ func runOne(s *scenario, idx int, derived uint64) (line string, viol []string, d
 	w.conns.Range(func(_, _ any) bool { nconns++; return true })
 	var ks []string
 	for k, n := range kinds {
-		ks = append(ks, fmt.Sprintf("%s:%d", kindNames[k][:2], n))
+		ks = append(ks, fmt.Sprintf("%s:%d", kindShort[k], n))
 	}
 	line = fmt.Sprintf("mode=%s yield=%d/%dus mc=%d cch=%d comp=%v win=%d auto=%v g=%d n=%d kinds=%s conns=%d inj=%d inv=%d ok=%d app=%d transport=%d noresp=%d srvFalseEnd=%d panicMsgLost=%d yields=%d ms=%d",
 		cfg.mode, cfg.yieldProb, cfg.yieldNs/time.Microsecond, cfg.maxConns, cfg.connChans, cfg.compress, cfg.window, cfg.auto,
